@@ -15,6 +15,8 @@ import (
 	"fmt"
 	"net"
 	"os"
+	"os/exec"
+	"strings"
 	"sync"
 	"sync/atomic"
 	"syscall"
@@ -42,6 +44,7 @@ type vDialScenario struct {
 	Dials     int      `json:"dials"`  // free: concurrent dials
 	TimeoutUs int      `json:"timeoutus"`
 	Network   string   `json:"network"` // free: tcp | tcp6 | unix
+	ExecChild bool     `json:"execchild"` // free: a child process is started while the dials are in flight
 	Second    string   `json:"second"`  // peer multi: what the second address of the host name does: drop | listen
 	Addrs     []string `json:"addrs"`   // controlled: the peers behind the addresses of the host name (1 or 2), in dial order
 }
@@ -106,7 +109,7 @@ func vDropListenerAt(ip [4]byte) (addr string, cleanup func()) {
 }
 
 func vDropListenerAtPort(ip [4]byte, port int) (addr string, cleanup func()) {
-	fd, _ := syscall.Socket(syscall.AF_INET, syscall.SOCK_STREAM, 0)
+	fd, _ := syscall.Socket(syscall.AF_INET, syscall.SOCK_STREAM|syscall.SOCK_CLOEXEC, 0)
 	syscall.SetsockoptInt(fd, syscall.SOL_SOCKET, syscall.SO_REUSEADDR, 1)
 	if err := syscall.Bind(fd, &syscall.SockaddrInet4{Addr: ip, Port: port}); err != nil {
 		syscall.Close(fd)
@@ -581,6 +584,19 @@ func vRunDialFree(sc *vDialScenario) ([]vOutEvent, map[string]interface{}) {
 		addr, cleanup = vDropListener()
 	}
 	var wg sync.WaitGroup
+	if sc.ExecChild {
+		// a child process started while the dials are in flight must not inherit their sockets
+		wg.Add(1)
+		go func() {
+			defer wg.Done()
+			time.Sleep(time.Duration(sc.TimeoutUs/3) * time.Microsecond)
+			outb, err := exec.Command("/bin/ls", "-l", "/proc/self/fd").CombinedOutput()
+			if err != nil {
+				return
+			}
+			ev("ChildFds", "", strings.Count(string(outb), "socket:"), 0, "")
+		}()
+	}
 	for i := 0; i < sc.Dials; i++ {
 		wg.Add(1)
 		go func(i int) {
